@@ -191,11 +191,20 @@ def step1 (st : St) (op impl : String) : St × StepOut :=
         (if kv iw "fin" == some "6" then [] else ["not-stopped-at-end"])
       | _, _ => ["unparsable"]
     (st, { model := impl, oracle := orc, nontrivial := true })
+  | "xchildren" :: _ =>
+    -- free-running: `ret=<0|1> kids=<st,…> parent=<st>` after `stop_children_and_wait` / `drain_children_and_wait`
+    -- on running children: returned (no lost wake-up), every child Stopped (= 6) at that moment, parent Running (= 2)
+    let kids := ((kv iw "kids").getD "").splitOn ","
+    let orc : List String :=
+      (if kv iw "ret" == some "1" then [] else ["lost-wakeup"]) ++
+      (if kv iw "ret" == some "1" && !(kids.all (· == "6")) then ["premature-return"] else []) ++
+      (if kv iw "parent" == some "2" then [] else ["children-wait-effect"])
+    (st, { model := impl, oracle := orc, nontrivial := true })
   | _ => (st, { model := "bad-op" })
 
 def step (st : St) (op impl : String) : St × StepOut :=
   let (st', out) := step1 st op impl
-  if st.diverged && !(op.startsWith "case ") && !(op.startsWith "xstress ") && !(op.startsWith "xtimeout ") then (st', { out with model := impl })
+  if st.diverged && !(op.startsWith "case ") && !(op.startsWith "xstress ") && !(op.startsWith "xtimeout ") && !(op.startsWith "xchildren ") then (st', { out with model := impl })
   else if out.model != impl then ({ st' with diverged := true }, out)
   else (st', out)
 
